@@ -18,6 +18,7 @@ Definition bind {A B} (r : res A) (f : A -> res B) : res B :=
   match r with Ok a => f a | Err e => Err e end.
 Definition E_Value : str := bs "ValueError"%bs.
 Definition E_Index : str := bs "IndexError"%bs.
+Definition E_Type : str := bs "TypeError"%bs.
 
 (* ---- objects (DESIGN 5.4; metadata other than the type is not observed) ---- *)
 Record loc := mkLoc { lstart : Z; lstop : Z; lstrand : byte; ldefect : N }.
@@ -205,7 +206,9 @@ Inductive window :=
 | WSlice (a b step : option Z)
 | WLoc (l : loc)                 (* a bare Location *)
 | WFeat (ls : list loc)          (* a Feature: its LocationTuple *)
-| WType (name : str).            (* a feature-type name *)
+| WType (name : str)             (* a feature-type name *)
+| WOwn (idx : nat)               (* the driver's seq.fts[idx % len(seq.fts)]: a feature of the sequence itself *)
+| WBad.                          (* any other object (the driver passes a float): TypeError('Index not supported'), seq.py:462 *)
 
 (* BioSeq._getitem, seq.py:439-483 (inplace=False, gap=None; kw = splitter / filler) *)
 Definition getitem (q : bioseq) (w : window) (update_fts : bool) (splitter filler : option str) : res bioseq :=
@@ -240,12 +243,114 @@ Definition getitem (q : bioseq) (w : window) (update_fts : bool) (splitter fille
       | None => Err E_Value
       | Some f => slice_locs q (flocs f) splitter filler update_fts
       end
+  | WOwn idx =>
+      match nth_error (sfts q) (Nat.modulo idx (length (sfts q))) with
+      | None => Err E_Value
+      | Some f => slice_locs q (flocs f) splitter filler update_fts
+      end
+  | WBad => Err E_Type
   end.
 
 (* BioSeq.rc(update_fts), seq.py:347-355 *)
 Definition seq_rc (q : bioseq) (update_fts : bool) : bioseq :=
   let data := rc (sdata q) in
   mkSeq data (if update_fts then fts_rc (Z.of_nat (length data)) (sfts q) else sfts q).
+
+(* ---- the gap option: gap-aware windows count residues, gap columns are skipped ---- *)
+(* nogaps = [i for i, nt in enumerate(self.data) if nt not in gap], seq.py:466 *)
+Fixpoint nogaps_from (k : Z) (gap s : str) : list Z :=
+  match s with
+  | [] => []
+  | c :: r => if has c gap then nogaps_from (k + 1) gap r else k :: nogaps_from (k + 1) gap r
+  end.
+Definition nogaps (gap s : str) : list Z := nogaps_from 0 gap s.
+(* adj(i), seq.py:467-473: residue numbering -> column numbering for one slice bound *)
+Definition adj (gap s : str) (o : option Z) : option Z :=
+  match o with
+  | None => None
+  | Some i =>
+      let ng := nogaps gap s in
+      let n := Z.of_nat (length ng) in
+      let i := if i <? 0 then Z.max (i + n) 0 else i in
+      Some (if i <? n then nth (Z.to_nat i) ng 0 else Z.of_nat (length s))
+  end.
+(* self.sl(gap=gap)[a:b] for step None *)
+Definition gslice (gap : option str) (s : str) (a b : option Z) : str :=
+  match gap with
+  | None => py_slice s a b
+  | Some g => py_slice s (adj g s a) (adj g s b)
+  end.
+(* seq.py:412-414 with the gap option forwarded *)
+Definition gpiece (gap : option str) (s : str) (l : loc) : str :=
+  let p := gslice gap s (Some (lstart l)) (Some (lstop l)) in
+  if is_minus l then rc p else p.
+Fixpoint join_locs_g (gap : option str) (s : str) (filler splitter : option str) (prev : option loc) (ls : list loc)
+  : list str :=
+  match ls with
+  | [] => []
+  | l :: r =>
+      (match filler, prev with
+       | Some f, Some p => if 0 <? fill_num p l then [repeat_str (Z.to_nat (fill_num p l)) f] else []
+       | _, _ => []
+       end) ++
+      (match splitter, prev with Some sp, Some _ => [sp] | _, _ => [] end) ++
+      [gpiece gap s l] ++ join_locs_g gap s filler splitter (Some l) r
+  end.
+(* BioSeq._slice_locs, seq.py:407-437, all options; [slice_locs] above is the instance gap=None (lemma getitem_g_None) *)
+Definition slice_locs_g (gap : option str) (q : bioseq) (ls : list loc) (splitter filler : option str) (update_fts : bool)
+  : res bioseq :=
+  let data := upper (concat (join_locs_g gap (sdata q) filler splitter None ls)) in
+  if update_fts then
+    if (1 <? Z.of_nat (length ls)) then Err E_Value
+    else
+      let start := range_start ls in
+      let stop := range_stop ls in
+      bind (slice_each (sfts q) start ls) (fun fts =>
+        let fts := match ls with
+                   | l0 :: _ => if is_minus l0 then fts_rc (stop - start) fts else fts
+                   | [] => fts
+                   end in
+        Ok (mkSeq data fts))
+  else Ok (mkSeq data (sfts q)).
+(* BioSeq._getitem, seq.py:439-483, all options but inplace (handled by the caller: self.data = subseq.data);
+   [getitem] above is the instance gap=None *)
+Definition getitem_g (q : bioseq) (w : window) (update_fts : bool) (splitter filler gap : option str) : res bioseq :=
+  let len := Z.of_nat (length (sdata q)) in
+  match w with
+  | WInt i =>
+      match gap with
+      | None => getitem q w update_fts splitter filler
+      | Some g =>
+          let ng := nogaps g (sdata q) in
+          let n := Z.of_nat (length ng) in
+          let r := if i <? 0 then i + n else i in
+          if (r <? 0) || (n <=? r) then Err E_Index                                (* nogaps[index] *)
+          else
+            let k := nth (Z.to_nat r) ng 0 in
+            let data := upper (sub (sdata q) (Z.to_nat k) (Z.to_nat (k + 1))) in
+            if update_fts then
+              bind (fts_slice k (k + 1) k (sfts q)) (fun fts => Ok (mkSeq data fts))
+            else Ok (mkSeq data (sfts q))
+      end
+  | WSlice a b step =>
+      match gap with
+      | None => getitem q w update_fts splitter filler
+      | Some g => getitem q (WSlice (adj g (sdata q) a) (adj g (sdata q) b) step) update_fts splitter filler
+      end
+  | WLoc l => slice_locs_g gap q [l] splitter filler update_fts
+  | WFeat ls => slice_locs_g gap q ls splitter filler update_fts
+  | WType name =>
+      match fts_get name (sfts q) with
+      | None => Err E_Value
+      | Some f => slice_locs_g gap q (flocs f) splitter filler update_fts
+      end
+  | WOwn idx =>
+      match nth_error (sfts q) (Nat.modulo idx (length (sfts q))) with
+      | None => Err E_Value
+      | Some f => slice_locs_g gap q (flocs f) splitter filler update_fts
+      end
+  | WBad => Err E_Type
+  end.
 
 (* ---- harness input: raw constructor arguments, as the driver passes them to Location / Feature / BioSeq ---- *)
 Definition rawloc := (Z * Z * Z * Z)%type.      (* start, stop, ord(strand), defect *)
@@ -271,12 +376,30 @@ Fixpoint build_fts (rs : list rawft) : res (list feature) :=
   | r :: t => bind (build_ft r) (fun f => bind (build_fts t) (fun fs => Ok (f :: fs)))
   end.
 
+(* the other argument forms of Feature / LocationTuple.__new__ (fts.py:163-178), selected by the driver for the whole case:
+   mode 0: locs=[Location, ...] (and, for defect-free single locations, start=/stop=/strand= keywords: same exceptions);
+   mode 1: locs=[(start, stop, strand, defect), ...] tuples: a bad location raises TypeError (fts.py:176-178);
+   mode 2: the first feature is given no location at all or both locs= and start=: ValueError (fts.py:166, 169) *)
+Definition build_ft_m (mode : Z) (r : rawft) : res feature :=
+  match build_locs (snd r) with
+  | Err e => Err (if mode =? 1 then E_Type else e)
+  | Ok ls => bind (mk_loctuple ls) (fun ls' => Ok (mkFt (fst r) ls'))
+  end.
+Fixpoint build_fts_m (mode : Z) (rs : list rawft) : res (list feature) :=
+  match rs with
+  | [] => Ok []
+  | r :: t => if mode =? 2 then Err E_Value
+              else bind (build_ft_m mode r) (fun f => bind (build_fts_m mode t) (fun fs => Ok (f :: fs)))
+  end.
+
 Inductive rawwin :=
 | RInt (i : Z)
 | RSlice (a b step : option Z)
 | RLoc (l : rawloc)
 | RFeat (ls : list rawloc)
 | RType (name : str)
+| ROwn (idx : Z)
+| RBad
 | RRc.
 
 Definition build_win (w : rawwin) : res (option window) :=
@@ -286,16 +409,27 @@ Definition build_win (w : rawwin) : res (option window) :=
   | RLoc l => bind (build_loc l) (fun l' => Ok (Some (WLoc l')))
   | RFeat ls => bind (build_locs ls) (fun ls' => bind (mk_loctuple ls') (fun t => Ok (Some (WFeat t))))
   | RType n => Ok (Some (WType n))
+  | ROwn i => Ok (Some (WOwn (Z.to_nat i)))
+  | RBad => Ok (Some WBad)
   | RRc => Ok None
   end.
 
-Definition run_op (data : str) (fts : list rawft) (w : rawwin) (update_fts : bool) (splitter filler : option str)
+Definition run_op_m (mode : Z) (data : str) (fts : list rawft) (w : rawwin) (update_fts : bool) (splitter filler gap : option str)
+  : res bioseq :=
+  bind (build_fts_m mode fts) (fun fs =>
+    let q := new_seq data fs in
+    bind (build_win w) (fun ow =>
+      match ow with
+      | Some win => getitem_g q win update_fts splitter filler gap
+      | None => Ok (seq_rc q update_fts)
+      end)).
+Definition run_op (data : str) (fts : list rawft) (w : rawwin) (update_fts : bool) (splitter filler gap : option str)
   : res bioseq :=
   bind (build_fts fts) (fun fs =>
     let q := new_seq data fs in
     bind (build_win w) (fun ow =>
       match ow with
-      | Some win => getitem q win update_fts splitter filler
+      | Some win => getitem_g q win update_fts splitter filler gap
       | None => Ok (seq_rc q update_fts)
       end)).
 
@@ -306,8 +440,7 @@ Definition loc_in (len : Z) (l : loc) : bool :=
   (0 <=? lstart l) && (lstart l <? lstop l) && (lstop l <=? len) && valid_strand (lstrand l) && N.ltb (ldefect l) 256.
 Definition ft_in (len : Z) (f : feature) : bool :=
   negb (Nat.eqb (length (flocs f)) 0) && forallb (loc_in len) (flocs f) && same_strand (flocs f) && opt_ascii (ftype f).
-Definition win_ok (q : bioseq) (w : window) (update_fts : bool) : bool :=
-  let len := Z.of_nat (length (sdata q)) in
+Definition win_ok_len (len : Z) (fts : list feature) (w : window) (update_fts : bool) : bool :=
   match w with
   | WInt i => true
   | WSlice a b step =>
@@ -316,18 +449,38 @@ Definition win_ok (q : bioseq) (w : window) (update_fts : bool) : bool :=
   | WFeat ls => ft_in len (mkFt None ls) && negb (update_fts && (1 <? Z.of_nat (length ls)))
   | WType name =>
       ascii_str name &&
-      match fts_get name (sfts q) with
+      match fts_get name fts with
       | Some f => negb (update_fts && (1 <? Z.of_nat (length (flocs f))))
       | None => true
       end
+  | WOwn idx =>
+      match nth_error fts (Nat.modulo idx (length fts)) with
+      | Some f => negb (update_fts && (1 <? Z.of_nat (length (flocs f))))
+      | None => true
+      end
+  | WBad => true
   end.
-Definition wf_C06 (data : str) (fts : list rawft) (w : rawwin) (update_fts : bool) (splitter filler : option str) : bool :=
-  ascii_str data && forallb in_alpha (upper data) && opt_ascii splitter && opt_ascii filler &&
+Definition win_ok (q : bioseq) (w : window) (update_fts : bool) : bool :=
+  win_ok_len (Z.of_nat (length (sdata q))) (sfts q) w update_fts.
+(* with gap= the coordinates of windows and features count residues: they must lie inside [0, number of residues] *)
+Definition dlen (gap : option str) (s : str) : Z :=
+  match gap with None => Z.of_nat (length s) | Some g => Z.of_nat (length (nogaps g s)) end.
+(* NOTE gap x update_fts is under-specified in sugar: sl(gap=g, update_fts=True)[int | slice] cuts the features at the COLUMN
+   bounds of the window (pinned by sugar's test_seqs_getitem_special), whereas sl(gap=g, update_fts=True)[Location | Feature | name]
+   cuts them at the RESIDUE numbers of the window.  Both paths are modelled as they are and compared on every run; no theorem
+   below speaks about this combination. *)
+Definition win_ok_g (q : bioseq) (w : window) (update_fts : bool) (gap : option str) : bool :=
+  win_ok_len (dlen gap (sdata q)) (sfts q) w update_fts.
+(* a sequence object inside the domain: upper-case nucleotide alphabet, features inside the (residue) range *)
+Definition state_ok (gap : option str) (q : bioseq) : bool :=
+  forallb in_alpha (sdata q) && forallb (ft_in (dlen gap (sdata q))) (sfts q).
+Definition wf_C06 (data : str) (fts : list rawft) (w : rawwin) (update_fts : bool) (splitter filler gap : option str) : bool :=
+  ascii_str data && forallb in_alpha (upper data) && opt_ascii splitter && opt_ascii filler && opt_ascii gap &&
   match build_fts fts, build_win w with
   | Ok fs, Ok ow =>
       let q := new_seq data fs in
-      forallb (ft_in (Z.of_nat (length (sdata q)))) fs &&
-      match ow with Some win => win_ok q win update_fts | None => true end
+      forallb (ft_in (dlen gap (sdata q))) fs &&
+      match ow with Some win => win_ok_g q win update_fts gap | None => true end
   | _, _ => false
   end.
 
@@ -337,8 +490,83 @@ Definition show_ft (f : feature) : val := VL [VOpt VS (ftype f); VL (map show_lo
 Definition show_seq (q : bioseq) : val := VL [VS (sdata q); VL (map show_ft (sfts q))].
 Definition show_res (r : res bioseq) : val := match r with Ok q => show_seq q | Err e => VE e end.
 
-Definition run_C06 (data : str) (fts : list rawft) (w : rawwin) (update_fts : bool) (splitter filler : option str) : val :=
-  VL [VB (wf_C06 data fts w update_fts splitter filler); show_res (run_op data fts w update_fts splitter filler)].
+Definition run_C06 (mode : Z) (data : str) (fts : list rawft) (w : rawwin) (update_fts : bool) (splitter filler gap : option str) : val :=
+  VL [VB (wf_C06 data fts w update_fts splitter filler gap && negb (mode =? 2));
+      show_res (run_op_m mode data fts w update_fts splitter filler gap)].
+
+(* ---- histories on ONE sequence object: windows interleaved with in-place edits (the model is pure: every step is the
+   model applied to the current value) ---- *)
+Inductive hstep :=
+| HWin (w : rawwin) (update_fts : bool) (splitter filler gap : option str) (inplace : bool)
+| HReverse                         (* seq.reverse(), seq.py:584-589 *)
+| HComplement                      (* seq.complement(), seq.py:486-494 *)
+| HSetItem (i : Z) (c : str)       (* seq[i] = c, BioSeq.__setitem__ seq.py:251-254 *)
+| HSetData (data : str)            (* seq.data = text (plain attribute) *)
+| HSetFts (fts : list rawft)       (* seq.fts = FeatureList([...]) *)
+| HNew (data : str) (fts : list rawft)    (* continue on a fresh object with the same id *)
+| HShare (idx : nat).              (* seq.fts = seq.fts + [Feature('shared', locs=seq.fts[idx % n].locs)]: two features sharing Location objects *)
+
+Definition set_item (s : str) (i : Z) (c : str) : res str :=
+  let len := Z.of_nat (length s) in
+  let k := if i <? 0 then i + len else i in
+  if (k <? 0) || (len <=? k) then Err E_Index
+  else Ok (firstn (Z.to_nat k) s ++ c ++ skipn (Z.to_nat k + 1) s).
+
+(* one step: (in domain?, value returned / exception, object afterwards) *)
+Definition hstep_run (q : bioseq) (st : hstep) : bool * val * bioseq :=
+  match st with
+  | HWin w u sp fi gap inplace =>
+      match build_win w with
+      | Err e => (false, VE e, q)
+      | Ok None => (state_ok None q, VNone, seq_rc q u)
+      | Ok (Some win) =>
+          let r := getitem_g q win u sp fi gap in
+          (state_ok gap q && opt_ascii sp && opt_ascii fi && opt_ascii gap && win_ok_g q win u gap,
+           show_res r,
+           match r with
+           | Ok x => if inplace then mkSeq (sdata x) (sfts q) else q               (* self.data = subseq.data *)
+           | Err _ => q
+           end)
+      end
+  | HReverse => (state_ok None q, VNone, mkSeq (reverse (sdata q)) (sfts q))
+  | HComplement => (state_ok None q, VNone, mkSeq (complement (sdata q)) (sfts q))
+  | HSetItem i c =>
+      match set_item (sdata q) i c with
+      | Ok d => (ascii_str c, VNone, mkSeq d (sfts q))
+      | Err e => (true, VE e, q)
+      end
+  | HSetData d => (ascii_str d, VNone, mkSeq d (sfts q))
+  | HSetFts fts =>
+      match build_fts fts with
+      | Ok fs => (true, VNone, mkSeq (sdata q) fs)
+      | Err e => (false, VE e, q)
+      end
+  | HNew d fts =>
+      match build_fts fts with
+      | Ok fs => (ascii_str d, VNone, new_seq d fs)
+      | Err e => (false, VE e, q)
+      end
+  | HShare idx =>
+      match nth_error (sfts q) (Nat.modulo idx (length (sfts q))) with
+      | Some f => (true, VNone, mkSeq (sdata q) (sfts q ++ [mkFt (Some (bs "shared"%bs)) (flocs f)]))
+      | None => (true, VE E_Value, q)
+      end
+  end.
+Fixpoint hist_run (q : bioseq) (steps : list hstep) : bool * list val :=
+  match steps with
+  | [] => (true, [])
+  | st :: r =>
+      let '(ok, v, q') := hstep_run q st in
+      let '(ok', vs) := hist_run q' r in
+      (ok && ok', VL [v; show_seq q'] :: vs)
+  end.
+Definition run_C06h (data : str) (fts : list rawft) (steps : list hstep) : val :=
+  match build_fts fts with
+  | Ok fs =>
+      let '(ok, vs) := hist_run (new_seq data fs) steps in
+      VL [VB (ascii_str data && ok); VL vs]
+  | Err e => VL [VB false; VE e]
+  end.
 
 (* ---- specification side: what the property says, stated without the loops of the code ---- *)
 (* residues of the half-open interval [x, y) of s, integer coordinates *)
